@@ -284,6 +284,7 @@ PROPS["C15"] = {
          "quick": {"checks": 150, "shards": 12, "timeout": 700},
          "thorough": {"checks": 4000, "shards": 16, "timeout": 2400}},
         {"pkg": "verifx/c15", "run": "^TestC15KnownPreV2Vote$", "all": {"shards": 1, "timeout": 300}},
+        {"pkg": "verifx/c15", "run": "^TestC15KnownSystemAccountInputs$", "all": {"shards": 1, "timeout": 300}},
     ],
 }
 
@@ -498,3 +499,12 @@ _amend("C09", "level_text", "foreign/other-slot signers and timestamp shifts.",
 _amend("C14", "level_text", "Generated hostile transactions:",
        "Generated hostile transactions (in a sixth of the private-network cases a history of 2-8 enterprise configuration calls whose address arguments include names and special accounts, so that what one call stores is what the next one reads):")
 _amend("C11", "level_note", "", "") if False else None
+
+_amend("C13", "level_text", "and real reorganisations of depth 1-3 of the node;",
+       "real reorganisations of depth 1-3 of the node and longer branches whose last block is invalid (the roll-forward fails half way, the node stays on its chain); in a third of the cases user 0 registers an account name in the first block, transactions are also submitted under the name (signed by the holder: accepted; by anybody else: refused) and blocks hand the name to another account;")
+_amend("C13", "level_text", "hashes are unique and the hash index equals the held set,",
+       "hashes are unique and the hash index equals the held set, no list holds a transaction sent under a name that stands for another account in the current state (resolved with the name contract's own reader),")
+
+
+_amend("C15", "level_text", "name create/update and transfers, executed one transaction at a time",
+       "name create/update and transfers (in one case out of six also the inputs of the recorded findings: unknown command names, plain payments to the staking account, a producer vote with a 156-byte peer id that repeats a producer's id; a case ends when one of them is executed, the other cases explore behind them), executed one transaction at a time")
